@@ -1,6 +1,6 @@
 (* C12 - configured probabilities are the probabilities applied. *)
 From Coq Require Import List ZArith QArith.
-From UEC Require Import Base.Dist Ec.Mutation Ec.Generators.
+From UEC Require Import Base.Dist Ec.Mutation Ec.UmadBlock Ec.Generators.
 Import ListNotations.
 
 (* bit-flip: the exact product law - each gene flipped independently with the given rate *)
@@ -16,6 +16,21 @@ Print Assumptions C12_expected_flips.
 Theorem C12_one_expected_flip : forall g, g <> [] -> expect (one_over_length g) (flips g) == 1.
 Proof. exact one_expected_flip. Qed.
 Print Assumptions C12_one_expected_flip.
+
+(* UMAD, gene by gene: the old gene survives with probability 1-d; independently, a new gene is inserted after it
+   with probability a(1-d) - added with probability a and itself subject to deletion - and it is drawn from the
+   generator; a genome is processed gene after gene, independently *)
+Theorem C12_umad_block : forall (G : Type) (gen : dist G) a d (x : G) (P : list G -> bool),
+  prob (block gen a d x) P ==
+    (1 - d) * (1 - a * (1 - d)) * ind (P [x]) + (1 - d) * (a * (1 - d)) * prob gen (fun y => P [x; y]) +
+    d * (1 - a * (1 - d)) * ind (P []) + d * (a * (1 - d)) * prob gen (fun y => P [y]).
+Proof. exact @block_law. Qed.
+Print Assumptions C12_umad_block.
+
+Theorem C12_umad_gene_after_gene : forall (G : Type) (gen : dist G) a d x t,
+  umad_loop gen a d (x :: t) = dbind (block gen a d x) (fun b => dbind (umad_loop gen a d t) (fun r => dret (b ++ r))).
+Proof. exact @umad_loop_cons. Qed.
+Print Assumptions C12_umad_gene_after_gene.
 
 (* UMAD: expected child size n (1 - d)(1 + a); new genes are subject to deletion too *)
 Theorem C12_umad_size : forall (G : Type) (gen : dist G) a d, mass gen == 1 ->
